@@ -346,7 +346,10 @@ def fuzz_query(rng) -> str:
         if kind == 1:
             return "$[" + ", ".join(str(i) for i in range(rng.choice((100, 150, 400)))) + "]"
         if kind == 2:
-            return "$[?@.a == " + "9" * rng.choice((17, 400, 5000)) + "]"
+            # a number with very many digits, wherever the grammar has a number
+            digits = rng.choice(("9", "1", "10")) * rng.choice((17, 400, 4300, 4301, 5000, 20000))
+            num = rng.choice(("", "", "-")) + digits
+            return rng.choice(("$[?@.a == %s]", "$[%s]", "$[%s:]", "$[:%s]", "$[::%s]", "$[0, %s]", "$[1:%s:2]", "$..[%s]", "$[?@[%s]]", "$[?length(@) < %s]", "$[?@ > 1e%s]", "$[?@ > 1.%s]", "$[?@ > %s.5]", "$[?@ > %se1]")) % num
         if kind == 3:
             return "$[?" + "f" * rng.choice((40, 300)) + "(@.a)]"
         if kind == 4:
@@ -578,7 +581,11 @@ def judge(sc: Dict[str, Any], obs: Dict[str, Any], ref: Dict[str, Any]) -> List[
                 body = stderr[:-1] if stderr.endswith("\n") else None
                 if body is None or not body.strip() or len(body.splitlines()) != 1:
                     out.append((f"stderr-not-one-line@{phase}", f"stderr is {stderr[:200]!r}; expected exactly one non-empty line for {why}"))
-        if primary or other:
+        # nothing may be written: the output is empty -- or, for an output file that existed before
+        # the run, still exactly what it was (a tool that does not clobber it on failure is fine)
+        before = sc["files"].get(sc["names"]["out"]) if sc["out"] == "-o" else None
+        untouched = before is not None and primary == before.encode("latin-1").decode("utf-8", "replace")
+        if (primary and not untouched) or other:
             out.append((f"partial-output@{phase}", f"output written although {why}: {(primary or other)[:120]!r}"))
 
     if ref["expect"] == "fail":
